@@ -520,3 +520,71 @@ register(Contract(K + "QuantityMeta.new_unit", new_unit_spec,
                   summarize=False,
                   inline=[K + "Unit.__eq__", K + "QuantityMeta._make_unit",
                           RG + "DefinedItemRegistry.register_item"]))
+
+
+# ---- directory queries --------------------------------------------------------------
+def unit_new_spec(ctx: Ctx):
+    symbol_v = ctx.a("symbol")
+    h = ctx.pre
+    if not isinstance(symbol_v, VStr):
+        raise Unsupported("non-string symbol (unhashable keys are outside PyQ)")
+    s = symbol_v.t
+    req = [alloc(h, M.G_SYMMAP), symmap_inv_at(h, s)]
+    return req, [
+        Case("registered", sym_has(h, s), ensures=[
+            ("identical-object", lambda c, o: isinstance(o.value, VObj) and
+             z3.And(o.value.t == sym_get(h, s), symbol(h, o.value.t) == s))],
+            result=lambda c: VObj(sym_get(h, s), "Unit")),
+        Case("unknown-symbol", z3.Not(sym_has(h, s)), raises="ValueError"),
+    ]
+
+
+register(Contract(K + "Unit.__new__", unit_new_spec,
+                  lambda: [Scenario("symbol", lambda I: dict(
+                      cls=VClass("Unit"), symbol=sym_str("symbol")))],
+                  props=["C15", "C16"]))
+
+
+def contains_spec(ctx: Ctx):
+    cls, symbol_v = ctx.a("cls"), ctx.a("symbol")
+    h = ctx.pre
+    s = symbol_v.t
+    req = [wf_cls(h, cls.t), unitmap_inv_at(h, cls.t, s)]
+    m = unit_map(h, cls.t)
+    return req, [Case("lookup", TRUE, ensures=[
+        ("listed-iff-own-unit", lambda c, o: bool_result(
+            o, lambda b: z3.And(
+                b == sym_has(h, s, m),
+                z3.Implies(b, z3.And(sym_has(h, s),
+                                     qty_cls(h, sym_get(h, s)) == cls.t)))))],
+        result=lambda c: VBool(sym_has(h, s, m)))]
+
+
+register(Contract(K + "QuantityMeta.__contains__", contains_spec,
+                  lambda: [Scenario("symbol", lambda I: dict(
+                      cls=sym_obj("cls", "QtyCls"), symbol=sym_str("symbol")))],
+                  props=["C15", "C16"]))
+
+
+def get_unit_by_symbol_spec(ctx: Ctx):
+    cls, symbol_v = ctx.a("cls"), ctx.a("symbol")
+    h = ctx.pre
+    s = symbol_v.t
+    req = [wf_cls(h, cls.t), unitmap_inv_at(h, cls.t, s)]
+    m = unit_map(h, cls.t)
+    return req, [
+        Case("own-unit", sym_has(h, s, m), ensures=[
+            ("identical-object-of-this-type", lambda c, o:
+             isinstance(o.value, VObj) and z3.And(
+                 o.value.t == sym_get(h, s, m), o.value.t == sym_get(h, s),
+                 qty_cls(h, o.value.t) == cls.t))],
+            result=lambda c: VObj(sym_get(h, s, m), "Unit")),
+        Case("not-a-unit-of-this-type", z3.Not(sym_has(h, s, m)),
+             raises="ValueError"),
+    ]
+
+
+register(Contract(K + "QuantityMeta.get_unit_by_symbol", get_unit_by_symbol_spec,
+                  lambda: [Scenario("symbol", lambda I: dict(
+                      cls=sym_obj("cls", "QtyCls"), symbol=sym_str("symbol")))],
+                  props=["C15", "C16", "C08"]))
